@@ -19,6 +19,7 @@ mod encchar;
 mod label;
 mod memconv;
 mod specdec;
+mod specenc;
 mod util;
 mod valid;
 
@@ -40,6 +41,7 @@ const MODULES: &[(GenFn, ReplayFn)] = &[
     (meta::generate, meta::replay),
     (cfgcorpus::generate, cfgcorpus::replay),
     (specdec::generate, specdec::replay),
+    (specenc::generate, specenc::replay),
 ];
 
 fn main() {
